@@ -1,4 +1,4 @@
-FIX_COMMITS = ['056fe00 (C14)', '194b898 (C18)', 'e5d1f9f (C05 sweep tie-break)', 'c0a262c (C10)', '7c606c6 (C20)', 'cbc693c (C05/C06 BP-OSD)', 'a832f8b (C06 XCube)', 'a7ca295 (C05 MBP)', '0d33a68 (C12)', '7651b61 (C13)', '9f095a3 (C19)', '7211c70 (C15)']
+FIX_COMMITS = ['056fe00 (C14)', '194b898 (C18)', 'e5d1f9f (C05 sweep tie-break)', 'c0a262c (C10)', '7c606c6 (C20)', 'cbc693c (C05/C06 BP-OSD)', 'a832f8b (C06 XCube)', 'a7ca295 (C05 MBP)', '0d33a68 (C12)', '7651b61 (C13)', '9f095a3 (C19)', '7211c70 (C15)', '37a5699 (C05 XCube non-cubic)']
 CHECKS = {
  'C14': dict(category='proof',
    text='For all (n_nodes, n_cores, n_inputs, trials, job_idx) - no bound - the body of run_parallel is executed symbolically and 10 '
@@ -87,7 +87,7 @@ CHECKS['C06'] = dict(category='other',
         'allowed sources - plus frame clauses for the four noise-model functions. These are decided for every path and every array content, without a solver. History-independence '
         'itself is exercised on real objects (reused vs fresh decoder over syndrome histories incl. sector-pure syndromes and BP-OSD with channel_update, byte-wise comparison of arguments and cached tables) as bounded layer.',
    note='Assumed: numpy view/copy rules; third-party decode() returns a function of (matrix, current priors, syndrome) and does not modify its arguments; unknown calls do not write their '
-        'arguments. UnionFind Support objects and decoders held in containers are not followed by the analysis (bounded only). Level "other": decided statically, not by an SMT proof.',
+        'arguments. UnionFind Support objects and decoders held in containers are not followed by the analysis (bounded only). Writes into containers OWNED by the decoder / noise-model object (memos, pre-drawn random blocks) make the clause undecided, not refuted: only the run-time contract decides them. Level "other": decided statically, not by an SMT proof.',
    technique='frame (assigns) and dependence obligations by abstract interpretation over the AST; reused-vs-fresh decoder run-time contract')
 CHECKS['C05'] = dict(category='other',
    text='Deductive part: constructors and decode() of MatchingDecoder (all error_type / weights variants), UnionFindDecoder, BeliefPropagationOSDDecoder (CSS, non-CSS, channel update) and both '
